@@ -120,8 +120,13 @@ pub fn replay_dig_file(path: &str, seed: u64) -> J {
         if line.trim().is_empty() {
             continue;
         }
-        let b: J = serde_json::from_str(line).expect("behaviour JSON");
+        let b0: J = serde_json::from_str(line).expect("behaviour JSON");
         n += 1;
+      // The model's labels are abstract (A, B, t, u): DigParse does not look inside them apart from the `_out` suffix, so every
+      // injective renaming is a behaviour too. Each behaviour is replayed under the identity and under renamings that use the
+      // words the file format itself is made of (attribute keys, element names, tag names).
+      for renaming in 0..RENAMINGS.len() {
+        let b = rename_behaviour(&b0, renaming);
         let pins: Vec<Pin> = b["pins"]
             .as_array()
             .unwrap()
@@ -232,7 +237,7 @@ pub fn replay_dig_file(path: &str, seed: u64) -> J {
             }
         }
         // corruption sweep on a sample of the documents: any text gives a file or an error, never a panic
-        if i % 23 == 0 {
+        if i % 23 == 0 && renaming == (i / 23) % RENAMINGS.len() {
             let cuts: Vec<usize> = xml.char_indices().filter(|(_, c)| *c == '<' || *c == '>').map(|(p, _)| p).collect();
             for (ci, cut) in cuts.iter().enumerate() {
                 if ci % 3 != (i / 23) % 3 {
@@ -255,8 +260,73 @@ pub fn replay_dig_file(path: &str, seed: u64) -> J {
                 }
             }
         }
+      }
     }
-    json!({"behaviours": n, "distinct_nontrivial": nontrivial, "mismatches": mismatches, "samples": samples, "n_corrupted_documents": corrupted})
+    json!({"behaviours": n, "distinct_nontrivial": nontrivial, "mismatches": mismatches, "samples": samples, "n_corrupted_documents": corrupted,
+           "renamings_per_behaviour": RENAMINGS.len()})
+}
+
+/// label renamings: (A, B, t, u) -> ...; `<x>_out` follows `<x>`
+const RENAMINGS: [[&str; 4]; 4] = [
+    ["A", "B", "t", "u"],
+    ["Bits", "Label", "Testdata", "Label"],
+    ["InDefault", "Testdata", "Bits", "In"],
+    ["Out", "Clock", "Testcase", "dataString"],
+];
+
+fn rename_label(s: &str, k: usize) -> String {
+    let r = &RENAMINGS[k];
+    let one = |x: &str| -> Option<&str> {
+        match x {
+            "A" => Some(r[0]),
+            "B" => Some(r[1]),
+            "t" => Some(r[2]),
+            "u" => Some(r[3]),
+            _ => None,
+        }
+    };
+    if let Some(n) = one(s) {
+        return n.to_string();
+    }
+    if let Some(base) = s.strip_suffix("_out") {
+        if let Some(n) = one(base) {
+            return format!("{n}_out");
+        }
+    }
+    s.to_string()
+}
+
+/// pins and signals are renamed with the pin names, test labels with the test names
+fn rename_behaviour(b: &J, k: usize) -> J {
+    if k == 0 {
+        return b.clone();
+    }
+    let mut b = b.clone();
+    let ren = |v: &mut J| {
+        if let Some(s) = v.as_str() {
+            *v = json!(rename_label(s, k));
+        }
+    };
+    for p in b["pins"].as_array_mut().unwrap() {
+        ren(&mut p["label"]);
+    }
+    for t in b["tests"].as_array_mut().unwrap() {
+        ren(&mut t["label"]);
+        for h in t["header"].as_array_mut().unwrap() {
+            ren(h);
+        }
+    }
+    if let Some(a) = b["signals"].as_array_mut() {
+        for sg in a {
+            ren(&mut sg["name"]);
+        }
+    }
+    if let Some(a) = b["names"].as_array_mut() {
+        for nm in a {
+            ren(nm);
+        }
+    }
+    b
 }
 
 // ---------------------------------------------------------------------------------------------
